@@ -89,7 +89,7 @@ func verifC22Exempt(pattern, prefix string) bool {
 //verif:stub github.com/Query-farm/vgi-rpc-go/vgirpc.buildDescribeHTML = verifC22HTML3
 //verif:stub github.com/Query-farm/vgi-rpc-go/vgirpc.buildHTTPCookies = verifXCookies
 //verif:stub time.Now = verifFixedNow
-//verif:bound the route table is harvested from the real initRoutes / EnableSticky / initPages (so a newly registered route is covered automatically) for every combination of prefix {"", "/vgi"}, upload provider, token introspection, sticky sessions, PKCE login; every harvested route that is not on the property's exemption list is invoked once with a well-formed request (Arrow content type, a registered unary / producer / exchange method name in the path, a parseable body) under an authenticator that rejects in one of five ways (AuthFailure, ValueError, PermissionError, AuthUnavailable, plain error)
+//verif:bound the route table is harvested from the real initRoutes / EnableSticky / initPages (so a newly registered route is covered automatically) for every combination of prefix {"", "/vgi"}, upload provider, token introspection, sticky sessions, PKCE login; every harvested route that is not on the property's exemption list is invoked once with a well-formed request (Arrow content type, a registered unary / producer / exchange method name in the path, a parseable body) under an authenticator that rejects in one of five ways (AuthFailure, ValueError, PermissionError, AuthUnavailable, plain error), returning a nil context or the context it decoded alongside the error
 func verifH_C22_routes_behind_auth() {
 	verifResetIPC()
 	verifResetHandler()
@@ -137,7 +137,12 @@ func verifH_C22_routes_behind_auth() {
 		reject = errors.New("boom")
 	}
 	authCalls := 0
-	h.authenticateFunc = func(r *http.Request) (*AuthContext, error) { authCalls++; return nil, reject }
+	// a rejecting authenticator may still hand back the identity it decoded
+	var rejectedCtx *AuthContext
+	if verifNondetBool("context_with_error") {
+		rejectedCtx = &AuthContext{Authenticated: true, Principal: "proxy", Domain: "bearer"}
+	}
+	h.authenticateFunc = func(r *http.Request) (*AuthContext, error) { authCalls++; return rejectedCtx, reject }
 	verifHFn = func(ctx context.Context, cc *CallContext) (interface{}, error) { return 1, nil }
 
 	i := verifChoice("route", len(verifC22Routes))
